@@ -227,9 +227,15 @@ func runCase(r *mon.Run, idx int, c encCase) {
 				}
 			}
 			rec, log := ax.Record(ids)
-			res := ax.Decrypt(bytes.NewReader(file), c.armored, pickBuf(rng), rec...)
+			// the kind of reader the caller holds the file in rotates too
+			kind := ax.SourceKinds[rng.Intn(len(ax.SourceKinds))]
+			if big {
+				kind = []string{"bytes.Reader", "bufio4095", "os.File"}[rng.Intn(3)]
+			}
+			r.Tab("file_held_in", kind)
+			res := ax.DecryptFrom(file, c.armored, kind, pickBuf(rng), rec...)
 			r.Eval(1)
-			key := fmt.Sprintf("%s id=%s pos=%d fill=%v after=%d", caseName, p.Name, pos, fillNames, after)
+			key := fmt.Sprintf("%s id=%s pos=%d fill=%v after=%d src=%s", caseName, p.Name, pos, fillNames, after, kind)
 			r.Distinct(key)
 			if pos < 16 {
 				r.Tab("kind_x_pos", fmt.Sprintf("%c@%d", p.Kind, pos))
@@ -237,7 +243,7 @@ func runCase(r *mon.Run, idx int, c encCase) {
 				r.Tab("kind_x_pos", fmt.Sprintf("%c@16..255", p.Kind))
 			}
 			r.Tab("matching_stanza_index", idxClass(pi))
-			replay := map[string]any{"list": c.list, "len": c.length, "armor": c.armored, "identity": p.Name, "pos": pos, "fillers": fillNames, "after": after}
+			replay := map[string]any{"list": c.list, "len": c.length, "armor": c.armored, "identity": p.Name, "pos": pos, "fillers": fillNames, "after": after, "source_kind": kind}
 			if !res.Clean() {
 				r.Violate("decrypt-failed:"+key, fmt.Sprintf("%s: listed recipient could not decrypt: %s", key, res), replay)
 				continue
